@@ -23,5 +23,6 @@ broadcast use axiom_v4_len, axiom_v6_len, axiom_string_utf8, axiom_slice_cmp_u8;
 //@include ../parts/addr.rs
 //@include ../parts/ord.rs
 //@include ../parts/plain.rs
+//@include ../parts/s5hs.rs
 } // verus!
 fn main() {}
